@@ -869,6 +869,53 @@ def shard(seed, idx, tier, n_cases, corpus, deadline, levels=None):
     return res
 
 
+SMALL_ALPHABET = "aA_-1$"
+
+
+def enumerate_small(tier):
+    """Bounded-exhaustive scopes: every ordered pair (thorough: names up to length 3, quick: up to 2)
+    and every ordered triple of names of length 1 over a 6-character alphabet; every length 250..260
+    in a few shapes, alone and beside its own truncation."""
+    import itertools
+    maxlen = 3 if tier == "thorough" else 2
+    names = ["".join(t) for n in range(1, maxlen + 1) for t in itertools.product(SMALL_ALPHABET, repeat=n)]
+    for a, b in itertools.product(names, repeat=2):
+        yield {"level": "free", "scope": "instances", "sibs": [{"name": a, "ident": None, "rename": False}, {"name": b, "ident": None, "rename": False}]}
+    for t in itertools.product(SMALL_ALPHABET, repeat=3):
+        yield {"level": "free", "scope": "cables", "sibs": [{"name": c, "ident": None, "rename": False} for c in t]}
+    for L in range(250, 261):
+        for shape in ("a", "$", "A_sdn_9_", "a_sdn_99_", "-_sdn_999_"):
+            if "_sdn_" in shape:
+                head, suf = shape.split("_sdn_")
+                nm = (head * 300)[: L - len(suf) - 5] + "_sdn_" + suf
+            else:
+                nm = (shape + "a" * 300)[:L]
+            yield {"level": "free", "scope": "ports", "sibs": [{"name": nm, "ident": None, "rename": False}]}
+            yield {"level": "free", "scope": "ports", "sibs": [{"name": nm, "ident": None, "rename": False}, {"name": nm[:255], "ident": None, "rename": False},
+                                                               {"name": nm.swapcase(), "ident": None, "rename": False}]}
+
+
+def exhaustive_shard(seed, idx, nsh, tier, deadline):
+    res = ShardResult()
+    drv = lean.Driver("drv_names")
+    tmpdir = tempfile.mkdtemp(prefix="verif_names_")
+    rn = Runner(res, drv, tmpdir)
+    try:
+        for k, inp in enumerate(enumerate_small(tier)):
+            if k % nsh != idx:
+                continue
+            if time.time() > deadline:
+                res.dist("exhaustive.stopped-at-deadline")
+                break
+            res.case(inp, nontrivial(inp))
+            res.dist("exhaustive")
+            rn.run_one(inp)
+    finally:
+        drv.close()
+        shutil.rmtree(tmpdir, ignore_errors=True)
+    return res
+
+
 def _short(inp):
     def sh(s):
         return dict(s, name=s["name"] if len(s["name"]) <= 40 else s["name"][:37] + "...(%d)" % len(s["name"]))
@@ -973,6 +1020,9 @@ def run(ctx):
     for i in range(nsh):
         args.append((ctx.seed, i, ctx.tier, per, corpus if i == 0 else [], deadline))
     run_shards(ctx, shard, args)
+    run_shards(ctx, exhaustive_shard, [(ctx.seed, i, nsh, ctx.tier, time.time() + ctx.scale(40, 400)) for i in range(nsh)])
+    if ctx.tier == "thorough":
+        lean.leanchecker(ctx, MODULES)
     # step 3 of the contract: divergence without a failing input -> search around it
     from common import findings
     open_sigs = {k["signature"] for k in findings.load() if k["property"] == PID and k.get("status") == "open"}
